@@ -100,6 +100,12 @@ func dataVariants(repo string) []dataVariant {
 		{"ok", okData, -1, ""},
 		{"empty-graph", "[]", -1, ""},
 		{"empty-object", "{}", -1, ""},
+		// a complete JSON value followed by something else: the stream decoder reads the first value and stops
+		{"trailing-bracket", okData + " ]", -1, ""},
+		{"two-documents", okData + "\n" + okData, -1, ""},
+		{"trailing-nul", okData + "\x00\x00", -1, ""},
+		{"trailing-text", "[] and then some text", -1, ""},
+		{"trailing-brace-after-object", `{"@id":"http://a","@type":"http://ex.org/v#T"}}`, -1, ""},
 		{"empty", "", 3, "err"},
 		{"whitespace", "  \n\t ", 3, "err"},
 		{"truncated", okData[:len(okData)/2], 3, "err"},
